@@ -873,6 +873,32 @@ def _first_call_in_test(test, helpers, cls, caller):
     return walk(holder, "test", test)
 
 
+def _stores_before(stmts, x: str, res: str) -> bool:
+    """every assignment of x in the statements runs before the first assignment of res (source order, and none of them in a loop)"""
+    order = {}
+
+    def rec(n):
+        order[id(n)] = len(order)
+        for c in ast.iter_child_nodes(n):
+            rec(c)
+    for s_ in stmts:
+        rec(s_)
+    xs = [n for s_ in stmts for n in ast.walk(s_) if isinstance(n, ast.Name) and n.id == x and isinstance(n.ctx, (ast.Store, ast.Del))]
+    rs = [n for s_ in stmts for n in ast.walk(s_) if isinstance(n, ast.Name) and n.id == res and isinstance(n.ctx, (ast.Store, ast.Del))]
+    if not xs:
+        return True
+    if not rs:
+        return False
+    in_loop = set()
+    for s_ in stmts:
+        for lp in ast.walk(s_):
+            if isinstance(lp, (ast.For, ast.While, ast.AsyncFor)):
+                in_loop |= {id(n) for n in ast.walk(lp)}
+    if any(id(n) in in_loop for n in xs):
+        return False
+    return max(order[id(n)] for n in xs) < min(order[id(n)] for n in rs)
+
+
 def _first_call_in_value(val, helpers, cls, caller):
     """(holder, field, call expr) of the first helper call a statement's value evaluates, unconditionally, with nothing but
     quiet expressions (names, attributes, constants, len() of those, arithmetic on those) evaluated before it; else None."""
@@ -1433,9 +1459,11 @@ def _inline_in_block(stmts, helpers, caller, cls, rep: Report, failed: set):
             same = isinstance(st, ast.Assign) and ast.dump(result, annotate_fields=False).replace("Load()", "X").replace("Store()", "X") == \
                 ast.dump(tgt, annotate_fields=False).replace("Load()", "X").replace("Store()", "X")
             if not same and isinstance(result, ast.Name) and result.id.startswith("ret__") and isinstance(st, ast.Assign) and len(st.targets) == 1 \
-                    and isinstance(tgt, ast.Name) and not any(isinstance(x, ast.Name) and x.id == result.id for x in ast.walk(caller) if not any(x is y for s_ in new for y in ast.walk(s_))):
+                    and isinstance(tgt, ast.Name) and not any(isinstance(x, ast.Name) and x.id == result.id for x in ast.walk(caller) if not any(x is y for s_ in new for y in ast.walk(s_))) \
+                    and _stores_before(new, tgt.id, result.id):
                 # the result local is only assigned in tail positions of the inlined statements (nothing of them runs after such an
-                # assignment): it can be the caller's target itself
+                # assignment) and those statements do not assign the caller's target themselves (a loop variable of the same name
+                # would clobber the result): it can be the caller's target itself
                 rn_ = _Rename({result.id: tgt.id}, {})
                 new = [rn_.visit(s_) for s_ in new]
 
